@@ -339,6 +339,45 @@ func runC06(c *core.Ctx) {
 						continue
 					}
 				}
+				// a private constructor of the connection's context that is told whether to
+				// start authenticated (newConnectionContext(authenticated)): the call sits
+				// behind its own bool parameter, and the only callers are server.handle
+				// passing handle's own `authenticated` parameter
+				if isPrivateHelper(c, fn) && handle != nil {
+					var flag *ssa.Parameter
+					for _, p := range fn.Params {
+						p := p
+						if types.Identical(p.Type(), types.Typ[types.Bool]) &&
+							core.Guarded(fn, in, core.IsTrue(func(v ssa.Value) bool { return core.Canon(v) == ssa.Value(p) })) {
+							flag = p
+						}
+					}
+					if flag != nil {
+						idx := -1
+						for i, p := range fn.Params {
+							if p == flag {
+								idx = i
+							}
+						}
+						all, _ := c.CallSites()
+						okAll := len(all[fn]) > 0
+						for _, cs := range all[fn] {
+							args := cs.Common().Args
+							if cs.Parent() != handle || idx >= len(args) {
+								okAll = false
+								continue
+							}
+							ap, isP := core.Canon(args[idx]).(*ssa.Parameter)
+							if !isP || ap.Parent() != handle || !types.Identical(ap.Type(), types.Typ[types.Bool]) {
+								okAll = false
+							}
+						}
+						if okAll {
+							c.Pass("C06.who-authenticates", key, call.Pos(), "only across the helper's flag, which server.handle fills with its `authenticated` parameter")
+							continue
+						}
+					}
+				}
 				c.Fail("C06.who-authenticates", key, call.Pos(), "SetAuthenticated is called from "+core.FuncKey(fn)+", which is not one of the three legitimate places: a connection can become authenticated without credentials")
 			}
 		}
